@@ -173,6 +173,14 @@ def Sheet.run (s : Sheet) : List Pt → Sheet × List Drawdown
     let (s2, es) := Sheet.run s1 ps
     (s2, e.toList ++ es)
 
+/-- The bare generator over a whole curve: final generator and every drawdown `update` returned. -/
+def Gen.run (g : Gen) : List Pt → Gen × List Drawdown
+  | [] => (g, [])
+  | p :: ps =>
+    let r1 := g.update p
+    let r2 := Gen.run r1.1 ps
+    (r2.1, r1.2.toList ++ r2.2)
+
 /-- The instrument tear sheet's PnL curve: `PnLReturns::update` accumulates
 `pnl_raw += position.pnl_realised` (`summary/pnl.rs:47`) and `update_from_position` feeds
 `(pnl_raw, time_exit)` (`summary/instrument.rs:74-79`). `ds` are `(time_exit, pnl_realised)`. -/
@@ -193,6 +201,14 @@ def InstrSheet.update (s : InstrSheet) (t : Int) (pnlRealised : Rat) : InstrShee
   let pnl := s.pnlRaw + pnlRealised
   let (sh, e) := s.sheet.update ⟨t, pnl⟩
   (⟨pnl, sh⟩, e)
+
+/-- A whole list of exited positions `(time_exit, pnl_realised)` through `update_from_position`. -/
+def InstrSheet.run (s : InstrSheet) : List (Int × Rat) → InstrSheet × List Drawdown
+  | [] => (s, [])
+  | (t, d) :: ps =>
+    let r1 := s.update t d
+    let r2 := InstrSheet.run r1.1 ps
+    (r2.1, r1.2.toList ++ r2.2)
 
 /-! ## Abstract spec (from the property text)
 
@@ -215,6 +231,14 @@ def lastT (p : Pt) (seg : List Pt) : Int :=
   | some q => q.t
   | none => p.t
 
+/-- Depth of the segment `seg` under the running maximum `p`: the largest relative decline. -/
+def depthOf (p : Pt) (seg : List Pt) : Rat := largest (seg.map (fun q => decline p.v q.v))
+
+/-- The drawdown reported for the segment `seg` under the running maximum `p` when it ends at
+`tEnd`: none when there was no decline. -/
+def ddOf (p : Pt) (seg : List Pt) (tEnd : Int) : Option Drawdown :=
+  if depthOf p seg ≠ 0 then some ⟨depthOf p seg, p.t, tEnd⟩ else none
+
 /-- Peak-to-trough decomposition: (completed drawdowns in order, drawdown in progress). -/
 def decompose : List Pt → List Drawdown × Option Drawdown
   | [] => ([], none)
@@ -223,12 +247,11 @@ def decompose : List Pt → List Drawdown × Option Drawdown
     let seg := rest.takeWhile (fun q => q.v ≤ p.v)
     -- … and the remainder, which (if any) starts with the next point exceeding `p`
     let rem := rest.dropWhile (fun q => q.v ≤ p.v)
-    let depth := largest (seg.map (fun q => decline p.v q.v))
     match rem.head? with
-    | none => ([], if depth ≠ 0 then some ⟨depth, p.t, lastT p seg⟩ else none)
+    | none => ([], ddOf p seg (lastT p seg))
     | some q =>
       let r := decompose rem
-      (if depth ≠ 0 then ⟨depth, p.t, q.t⟩ :: r.1 else r.1, r.2)
+      ((ddOf p seg q.t).toList ++ r.1, r.2)
 termination_by l => l.length
 decreasing_by
   simp only [List.length_cons]
@@ -248,14 +271,17 @@ def avgDepth (ds : List Drawdown) : Rat := (ds.map (·.value)).sum / (ds.length 
 /-- Sum of the durations (ms). -/
 def sumDuration (ds : List Drawdown) : Int := (ds.map (·.duration)).sum
 
-/-- The mean duration is kept in whole milliseconds (`i64`): the incremental integer average
-`m ← m + (d - m) / k` (truncating). `Props.C18.mean_duration_near_average` bounds its distance to
+/-- One step of the incremental integer average `m ← m + (d - m) / k` (truncating division);
+`acc = (mean so far, number of durations so far)`. -/
+def stepMs (acc : Int × Nat) (x : Drawdown) : Int × Nat :=
+  (acc.1 + Int.tdiv (x.duration - acc.1) (acc.2 + 1 : Nat), acc.2 + 1)
+
+/-- The mean duration is kept in whole milliseconds (`i64`), so it cannot be the exact average: it
+is the incremental integer average. `Props.C18.mean_duration_near_average` bounds its distance to
 the exact average `sumDuration ds / n` by `(n - 1) / 2` ms. -/
 def avgDurationMs : List Drawdown → Option Int
   | [] => none
-  | d :: ds =>
-    some ((ds.foldl (fun (acc : Int × Nat) x => (acc.1 + Int.tdiv (x.duration - acc.1) (acc.2 + 1 : Nat), acc.2 + 1))
-      (d.duration, 1)).1)
+  | d :: ds => some (ds.foldl stepMs (d.duration, 1)).1
 
 /-- "The mean drawdown is their average in depth and duration". -/
 def specMean (ds : List Drawdown) : Option MeanDrawdown :=
